@@ -53,10 +53,18 @@ func verifC03Config() types.Params {
 	for i := 0; i < nsub; i++ {
 		nsrc := verif_choice("nsrc"+string(rune('1'+i)), 2) + 1
 		withShare := verif_choice("withShare"+string(rune('1'+i)), 2) == 1
-		if i == 1 {
-			nsrc, withShare = 1, false
+		var sd types.SubDistributor
+		if vC03Dim == 2 {
+			// two chained sub-distributors: the first has one source, the second takes the internal account or MAIN and pays a module / base account
+			if i == 0 {
+				sd = verifSub(i, 1, withShare)
+			} else {
+				sd = verifSubFrom(i, 1, false, []types.Account{{Type: types.Main}, {Type: types.InternalAccount, Id: "int1"}},
+					[]types.Account{{Type: types.ModuleAccount, Id: dGBC}, {Type: types.BaseAccount, Id: dBase2}})
+			}
+		} else {
+			sd = verifSub(i, nsrc, withShare)
 		}
-		sd := verifSub(i, nsrc, withShare)
 		verif_assume(sd.Validate() == nil)
 		subs = append(subs, sd)
 	}
